@@ -28,6 +28,7 @@ func init() {
 			{ID: "R05.2", Template: "T-WIDTH", Text: "amd64 vector-shift lowerings mask the count with lane-bits − 1", Min: 3},
 			{ID: "R05.3", Template: "T-SIBLING", Text: "integer division and trapping truncation raise the same set of trap kinds in the interpreter, amd64 and arm64", Min: 5},
 			{ID: "R05.5", Template: "T-WIDTH", Text: "SSA passes apply a width-derived shift-count modulus to scalar shifts only", Min: 1},
+			{ID: "R05.8", Template: "T-WIDTH", Text: "amd64 vector shifts: a count placed in the immediate of a packed shift is a literal or masked", Min: 1},
 			{ID: "R05.6", Template: "T-SIBLING", Text: "condition-code mappings of the backends (negation, operand swap) are involutions", Min: 1},
 			{ID: "R05.7", Template: "T-CONSULT", Text: "code looking inside an extension instruction consults its signedness", Min: 2},
 			{ID: "R05.4", Template: "T-WHOCALLS", Text: "float rounding/min/max arms use the WasmCompat helper of their width, never the math package's versions", Min: 10},
@@ -50,6 +51,7 @@ func init() {
 
 func runC05(c *core.Ctx) {
 	checkCondMapsAreInvolutions(c)
+	checkVectorShiftImmediateMasked(c)
 	checkExtendSignednessConsulted(c)
 	ip := c.Pkg("internal/engine/interpreter")
 	if ip == nil {
